@@ -2634,7 +2634,7 @@ class TextQueryBackend(Backend):
                 (
                     self.correlation_search_field_normalization_expression.format(
                         alias=alias.alias,
-                        field=field,
+                        field=self.escape_and_quote_field(field),
                     )
                     for alias in aliases
                     for alias_rule_reference, field in alias.mapping.items()
@@ -2710,7 +2710,7 @@ class TextQueryBackend(Backend):
             rule=rule,
             referenced_rules=self.convert_referenced_rules(rule.referenced_rules, method),
             field=(
-                rule.condition.fieldref
+                self._quote_correlation_condition_field(rule.condition.fieldref)
                 if isinstance(rule.condition, SigmaCorrelationCondition)
                 else ""
             ),
@@ -2812,6 +2812,12 @@ class TextQueryBackend(Backend):
         )
 
     # Implementation of the condition phase of the correlation query.
+    def _quote_correlation_condition_field(self, fieldref: Any) -> Any:
+        """The field of a correlation condition is written like every other field name."""
+        if isinstance(fieldref, str):
+            return self.escape_and_quote_field(fieldref)
+        return fieldref
+
     def convert_correlation_condition_from_template(
         self,
         cond: SigmaCorrelationCondition | SigmaExtendedCorrelationCondition,
@@ -2830,7 +2836,7 @@ class TextQueryBackend(Backend):
         if isinstance(cond, SigmaCorrelationCondition):
             return self._format_template(
                 template,
-                field=cond.fieldref,
+                field=self._quote_correlation_condition_field(cond.fieldref),
                 op=self.correlation_condition_mapping[cond.op],
                 count=cond.count,
                 referenced_rules=self.convert_referenced_rules(referenced_rules, method),
